@@ -396,6 +396,53 @@ def check_string_literals(chk, fails, dis, stats):
                 dis.append((c, go, m, d))
 
 
+def check_modular_twins(chk, fails, dis, stats):
+    """portion literals that agree modulo a machine word (2^64, 2^32) or modulo 10^19 — numerator with numerator and
+    denominator with denominator — in ONE script: each keeps its own exact value"""
+    from fractions import Fraction
+    rng = random.Random("C13twins-%d" % chk.seed)
+    cases, exps = [], []
+    for _ in range(chk.size(120, 1500)):
+        b = rng.randrange(2, 50)
+        a = rng.randrange(0, b + 1)
+        m = rng.choice([2 ** 64, 2 ** 32, 10 ** 19, 2 ** 63, 2 ** 128])
+        k = rng.randrange(1, 4)
+        j = rng.randrange(k, 2 * k + 1) + (1 if a > b * k else 0)
+        a2, b2 = a + k * m, b + max(j, k) * m
+        if a2 > b2:
+            a2, b2 = a, b + k * m
+        lits = [(a, b), (a2, b2)]
+        if rng.random() < 0.5:
+            lits.reverse()
+        script = "".join('set_tx_meta("p%d", %d/%d)\n' % (i, x, y) for i, (x, y) in enumerate(lits))
+        cases.append({"id": len(cases), "op": "exec", "script": script, "vars": {}, "balances": {}, "meta": {}, "store": "exact", "failAt": -1})
+        exps.append([Fraction(x, y) for x, y in lits])
+    gos = runner.run_go(cases)
+    mods = P.run_model(cases, gos)
+    stats["evaluations"] += len(cases)
+    stats["modular_twin_scripts"] = len(cases)
+    for c, e, o, m in zip(cases, exps, gos, mods):
+        go = o.get("go")
+        if go is None or o.get("parseErrors"):
+            continue            # (a literal above 2^63-1 … is the known finding of C14; these are ratio literals, which are not)
+        if go["outcome"] != "ok":
+            fails.append((c, go, m, ["portion literals rejected: %s %s" % (go.get("errKind"), go.get("errPayload"))]))
+            continue
+        for i, q in enumerate(e):
+            got = go["txMeta"].get("p%d" % i)
+            want = ["portion", "%d/%d" % (q.numerator, q.denominator)]
+            if got != want:
+                fails.append((c, go, m, ["literal %d of the script denotes %s, the metadata holds %s" % (i, want[1], got)]))
+                break
+        else:
+            stats["distinct_nontrivial"] += 1
+        if m is not None:
+            stats["model_comparisons"] += 1
+            d = runner.diff_exec(go, m, ["txMeta"])
+            if d:
+                dis.append((c, go, m, d))
+
+
 def run(chk):
     broken = chk.obligations(REGISTRY["C13"])
     runner.build_harness()
@@ -406,6 +453,7 @@ def run(chk):
     check_observed_around_arithmetic(chk, fails, dis, stats)
     check_metadata_entries_apart(chk, fails, dis, stats)
     check_string_literals(chk, fails, dis, stats)
+    check_modular_twins(chk, fails, dis, stats)
     for c, go, m, why in fails[:10]:
         chk.violation("oracle", case=c, go=go, model=m, oracle=why)
     if not fails:
